@@ -46,3 +46,35 @@ CHECKS['C15'] = {
     'rule': POLY_RULE,
     'assumptions': ['GMP arithmetic', 'reference model /verif/ref'],
 }
+
+CHECKS['C19'] = {
+    'level': 'fault_enumeration',
+    'jobs': [
+        {'engine': 'wdvt', 'variant': 'san', 'profile': 'wd', 'quick': 2000, 'thorough': 60000, 'avg_case_s': 0.01},
+        {'engine': 'wdvt', 'variant': 'san', 'profile': 'ww', 'quick': 1500, 'thorough': 40000, 'avg_case_s': 0.01},
+        {'engine': 'wdvt', 'variant': 'san', 'profile': 'soak', 'quick': 0, 'thorough': 500, 'avg_case_s': 0.1, 'thorough_only': True, 'max_workers': 4},
+    ],
+    'prefixes': ['C19.'],
+    'required_counters': ['wd.histories', 'wd.placements_deliver', 'wd.placements_elapse', 'wd.deliveries_deferred_in_critical_section',
+                          'wd.fired_plain', 'op.wd.create', 'op.wd.destroy', 'ww.checks_verified', 'ww.checks_inside_ppl_ops', 'ww.fired',
+                          'ww.ppl_op_abandoned', 'op.ww.add_to_threshold'],
+    'rule': ('cases = random watchdog histories (2-6 watchdogs, delays 1-300 cs incl. equal and sub-second deadlines, random create/destroy order), each executed once '
+             'plainly and once per (statement boundary of the library\'s bookkeeping [45 source failpoints + entry/exit of setitimer/getitimer] x {time elapses, expiry delivered}) '
+             'against a virtual ITIMER_PROF, every handler invocation decided by a reference timer queue; weight-watcher histories with every check compared with a shadow queue. '
+             'evaluations = oracle predicates evaluated; distinct_nontrivial = distinct (boundary id | mode | pending count | deferred count | outcome) with the timer armed, '
+             'plus create/destroy/expire and weight-check configuration classes, counted by hashing.'),
+    'assumptions': ['virtual timer interposed at link time (static libppl.a)', 'statement-level, not instruction-level, placement of signal delivery'],
+}
+CHECKS['C18'] = {
+    'level': 'exploration',
+    'jobs': [{'engine': 'termrank', 'variant': 'san', 'profile': 'default', 'quick': 3000, 'thorough': 120000, 'avg_case_s': 0.04}],
+    'prefixes': ['C18.'],
+    'required_counters': ['selftest_runs', 'rf_verified', 'complete_checks', 'ms_vs_pr_checks', 'members.point', 'members.ray', 'members.line', 'members.random',
+                          'relation.has_rf', 'relation.no_rf', 'form.one', 'form.two', 'op.test_MS', 'op.test_PR', 'op.one_MS', 'op.one_PR', 'op.all_MS', 'op.all_PR',
+                          'op.quasi_MS', 'op.test_MS_2', 'op.test_PR_2', 'op.one_MS_2', 'op.one_PR_2', 'op.all_MS_2', 'op.all_PR_2', 'op.quasi_MS_2'],
+    'rule': ('cases = one random loop relation over 0-3 (thorough: 0-4) program variables given to all 14 termination entry points as one 2n-dim pointset or a before/after pair '
+             'in one of 5 pointset classes; evaluations = LP-decided ranking-function tests (returned mu, every generator-derived and 20 random members of every returned mu_space), '
+             'verdict-vs-Farkas existence comparisons and MS-vs-PR comparisons; distinct_nontrivial = distinct (entry point | pointset class | n | relation class | workload template | '
+             'lazy-state word | row bucket | verdict | fresh-copy) tuples for relations that are neither empty nor universe, counted by hashing.'),
+    'assumptions': ['GMP arithmetic', 'RefLP (/verif/ref/lp.hh)', 'affine Farkas lemma', 'n <= 4, <= 14 inequality rows'],
+}
